@@ -35,6 +35,69 @@ FN = ("fun c : (Z * option backend * Z * Z) => let '(opt, subr, outv, obs) := c 
 GRID = list(itertools.product([0, 1, 2], [None, "cffsubr", "compreffor"], [1, 2]))
 
 
+def postprocess_section(ctx):
+    """PostProcessor.process on fonts that ALREADY carry 'CFF ' or 'CFF2' (the route of the variable compilers and of callers
+    that post-process a compiled font), over the whole grid level x subroutiniser x requested version (and 'same as input'):
+    either NotImplementedError is raised or the result carries the table of the requested version -- as the Gallina
+    process_cff says for that input version -- and draws what the input drew"""
+    import ufo2ft
+    from fontTools.ttLib import TTFont
+    from fontTools.pens.recordingPen import RecordingPen
+    from ufo2ft.postProcessor import PostProcessor
+    desc = {"glyphs": [{"name": n, "unicodes": [u], "width": 500 + 20 * k, "components": [], "anchors": [],
+                        "contours": [[(Fr(0), Fr(0), "line"), (Fr(200 + 10 * k), Fr(0), "line"), (Fr(100), Fr(300 + k), "line")]]}
+                       for k, (n, u) in enumerate((("a", 0x61), ("b", 0x62), ("c", 0x63)))]}
+    cases, meta = [], []
+    for inv in (1, 2):
+        src = ufo2ft.compileOTF(build_font(desc), cffVersion=inv, optimizeCFF=0, useProductionNames=False)
+        buf = io.BytesIO(); src.save(buf); data = buf.getvalue()
+        gs0 = TTFont(io.BytesIO(data)).getGlyphSet()
+        want_draw = {}
+        for n in ("a", "b", "c"):
+            p = RecordingPen(); gs0[n].draw(p); want_draw[n] = p.value
+        for opt, subr, outv in list(GRID) + [(o, sb, None) for o in (0, 1, 2) for sb in (None, "cffsubr", "compreffor")]:
+            case = {"input_table": "CFF " if inv == 1 else "CFF2", "options": {"optimizeCFF": opt, "subroutinizer": subr, "cffVersion": outv}}
+            ctx.count(); ctx.klass("post-process a compiled %s font" % case["input_table"].strip())
+            kw = {"optimizeCFF": opt, "cffVersion": outv}
+            if subr:
+                kw["subroutinizer"] = subr
+            obs, got = None, None
+            try:
+                out = PostProcessor(TTFont(io.BytesIO(data)), build_font(desc)).process(useProductionNames=False, **kw)
+                b2 = io.BytesIO(); out.save(b2); got = TTFont(io.BytesIO(b2.getvalue()))
+                obs = 1 if "CFF " in got else (2 if "CFF2" in got else 9)
+            except NotImplementedError:
+                obs = 0
+            except Exception as e:
+                ctx.spec_failure(case, "PostProcessor.process raised %s: %s\n%s" % (type(e).__name__, e, traceback.format_exc()[-800:]))
+                continue
+            if got is not None:
+                gs = got.getGlyphSet()
+                for n in ("a", "b", "c"):
+                    p = RecordingPen(); gs[n].draw(p)
+                    from harness import geom as _g
+                    if _g.recorded_to_segments(p.value) != _g.recorded_to_segments(want_draw[n]):
+                        ctx.spec_failure(dict(case, glyph=n), "post-processing changed what %r draws" % n)
+                        break
+            sub = "(@None backend)" if subr is None else "(Some %s)" % ("Cffsubr" if subr == "cffsubr" else "Compreffor")
+            cases.append(G.tup(G.tup(G.z(opt), sub), G.tup(G.z(inv), G.opt(None if outv is None else G.z(outv), "Z")), G.z(obs)))
+            meta.append(dict(case, observed={0: "NotImplementedError", 1: "result carries 'CFF '", 2: "result carries 'CFF2'", 9: "neither table"}[obs]))
+    vals = ctx.coq_eval(IMPORTS,
+                        "fun c : ((Z * option backend) * (Z * option Z) * Z) => let '((opt, subr), (inv, outv), obs) := c in "
+                        "let o := match outv with None => inv | Some v => v end in "
+                        "let a := action_code (process_cff opt subr inv outv) in "
+                        "if Z.eqb a 0 then (if Z.eqb obs 0 then 3 else 0) else (if Z.eqb obs o then 3 else if Z.eqb obs 0 then 2 else 0)",
+                        cases, chunk=100, tag="PostProc")
+    for v, case in zip(vals, meta):
+        if v is None or v == 3:
+            continue
+        if v == 0:
+            ctx.spec_failure(case, "an unsupported combination did not raise NotImplementedError, or the result does not carry the table of "
+                                   "the requested version (%s)" % case["observed"])
+        else:
+            ctx.corr_mismatch(case, "NotImplementedError where the Gallina process_cff has an action")
+
+
 def variable_section(ctx):
     """compileVariableCFF2 under optimizeCFF 0/1/2: the masters must be merged unspecialised whatever the level, so the
     variable font draws the same at every location.  Masters in which a point lies exactly on a horizontal / vertical edge
@@ -87,6 +150,7 @@ def variable_section(ctx):
 
 
 def explore(ctx):
+    postprocess_section(ctx)
     import ufo2ft
     from fontTools.ttLib import TTFont
     rng = ctx.subrng("cff")
